@@ -317,6 +317,7 @@ impl FilesParagraph {
         // no field, no holders (not one empty holder)
         self.0
             .get("Copyright")
+            .filter(|x| !x.is_empty())
             .map(|x| x.split('\n').map(|x| x.to_string()).collect::<Vec<_>>())
             .unwrap_or_default()
     }
